@@ -238,7 +238,8 @@ fn run() {
 // ------------------------------------------------------------------------------------ generator
 
 const PRICES: &[&str] = &["100", "101", "99.5", "150", "80", "100.25"];
-const FEES: &[&str] = &["0", "0", "0.1", "1", "2.5"];
+/// negative = a maker rebate (legal input: `Trade.fees` is signed and the realised-PnL code handles rebates)
+const FEES: &[&str] = &["0", "0", "0.1", "1", "2.5", "-0.2", "-1"];
 /// (bid price, bid amount, ask price, ask amount)
 const BOOKS: &[(&str, &str, &str, &str)] = &[
     ("99", "1", "101", "3"),
